@@ -520,7 +520,7 @@ def Origin (s : Sys) (e : Emit) : Prop :=
   | .modIndex =>
       e.ctx = some e.page ∧ e.marked = some (isPrivate s e.target) ∧ visible s e.target = true ∧
       ∃ r, r ∈ s.roots ∧ Desc s r e.target
-  | .classIndex => e.ctx = some e.page ∧ visible s e.target = true ∧ e.marked = some (classNodePrivate s s.n e.target)
+  | .classIndex => e.ctx = some e.page ∧ visible s e.target = true ∧ e.marked = some (classRowPrivate s e.target)
   | .nameIndex => e.ctx = some e.page ∧ visible s e.target = true ∧ e.marked = some (ctxPrivate s e.target)
   | .undoc => e.ctx = some e.page ∧ visible s e.target = true ∧ e.marked = some (ctxPrivate s e.target)
   | .allDocs => e.ctx = none ∧ e.marked = some ((s.ob e.target).privacy == .priv) ∧ visible s e.target = true
